@@ -13,7 +13,7 @@ import sys
 
 from . import core, tlc
 
-MAX_TYPES, MAX_NAMES, MAX_CTX = 12, 8, 12
+MAX_TYPES, MAX_NAMES, MAX_CTX = 12, 16, 12
 NAME_OK = re.compile(r"\w+")
 _cache = {}
 
@@ -79,22 +79,28 @@ def project(tid, events):
         out.append({"ev": "outside", "reason": reason})
 
     inner = {}
+    view = {}          # a component context is a view of the context it delegates to: a child created under it has that context as its parent
     for e in events:
         if e.get("within") and e["ev"] in ("add_resource", "add_factory"):
             inner.setdefault(e["within"], e)
+        if e["ev"] == "ctx.view":
+            view[e["ctx"]] = e["of"]
     for e in events:
         ev = e["ev"]
-        if ev in ("reg", "cb.begin", "cb.end", "res.event"):
+        if ev in ("reg", "cb.begin", "cb.end", "res.event", "ctx.view"):
             continue
+        if ev == "ctx.new":
+            while e["parent"] in view:
+                e = dict(e, parent=view[e["parent"]])
         if ev == "comp.add":
             # what a ComponentContext was asked to add, next to the call it delegated to the real context
             i = inner.get(e["call"])
             if out and out[-1]["ev"] == "outside":
                 break
             row = {"ev": "cadd", "n": N(e["name"]), "isdefault": e["name"] == "default", "starting": e["state"] == "starting", "defname": N(e["default_name"]),
-                   "desc": D(e["desc"]), "fac": bool(e["fac"]), "r": RESULT.get(e["r"], "other"), "delegated": i is not None,
-                   "in": {"n": N(i["name"]), "desc": D(i["desc"]), "r": RESULT.get(i["r"], "other"), "fac": i["ev"] == "add_factory"} if i else
-                         {"n": "", "desc": "", "r": "", "fac": False}}
+                   "desc": D(e["desc"]), "fac": bool(e["fac"]), "r": RESULT.get(e["r"], "other"), "delegated": i is not None, "cb": bool(e.get("cb", False)),
+                   "in": {"n": N(i["name"]), "desc": D(i["desc"]), "r": RESULT.get(i["r"], "other"), "fac": i["ev"] == "add_factory", "cb": bool(i.get("cb", False))} if i else
+                         {"n": "", "desc": "", "r": "", "fac": False, "cb": False}}
             out.append(row)
             continue
         if out and out[-1]["ev"] == "outside":
@@ -175,7 +181,7 @@ def project(tid, events):
     return {"id": tid, "events": out}
 
 
-PROPS = ("C02", "C03", "C04", "C13", "C14", "C18")
+PROPS = ("C01", "C02", "C03", "C04", "C13", "C14", "C18")
 
 
 def verdicts():
@@ -210,7 +216,7 @@ def add_to(rep: core.Report, prop: str):
             hits[h] += 1
         if not core.tla_bool(x["ok"]):
             p, _, clause = x["why"].partition(":")
-            if p == prop:
+            if prop in p.split(","):
                 rep.violations.append(core.Violation(prop, f"recorded execution {tid}: {clause}", f"{prop}:recorded:{clause}",
                                                      {"recorded": tid}, {"event": by[tid]["events"][x["step"] - 1] if x["step"] else None}))
             else:
@@ -236,4 +242,4 @@ def replay(prop: str, scenario: dict):
     if x is None or core.tla_bool(x["ok"]):
         return []
     p, _, clause = x["why"].partition(":")
-    return [core.Violation(prop, f"recorded execution {scenario['recorded']}: {clause}", f"{prop}:recorded:{clause}", scenario)] if p == prop else []
+    return [core.Violation(prop, f"recorded execution {scenario['recorded']}: {clause}", f"{prop}:recorded:{clause}", scenario)] if prop in p.split(",") else []
